@@ -113,6 +113,15 @@ def _run(n: int, edges: List[List[bool]], internal: List[bool], spaces: bool, sw
             r = parse([names[j], "--no-color"])
             if isinstance(r, tuple) or r.color is not False:
                 raise Violation(f"std-options :: {descr}: [c{j} --no-color] gives {r}")
+            # the standard color option in all its spellings (value attached, value as the next argument, no value)
+            for cv in ("auto", "always", "never", "yes", "no", "1", "0"):
+                for argv in ([names[j], f"--color={cv}"], [names[j], "--color", cv], [names[j], "--color", cv, f"--o{j}"]):
+                    r = parse(argv)
+                    if isinstance(r, tuple) or r.command != names[j] or (len(argv) == 4 and not getattr(r, f"o{j}", False)):
+                        raise Violation(f"std-options :: {descr}: {argv} gives {r}: the standard color option must be accepted by command c{j}")
+            r = parse([names[j], "--color"])
+            if isinstance(r, tuple) or r.command != names[j]:
+                raise Violation(f"std-options :: {descr}: [c{j} --color] gives {r}")
         for k in range(n):
             if internal[k]:
                 r = parse([names[k]])
